@@ -77,7 +77,7 @@ def job(shard, nshards, seed, tier, exes, plan):
         cmd = "%s %s" % (exe, " ".join(str(a) for a in args))
         rep0 = {"cmd": cmd, "env": env or {}, "variant": variant}
         sh.evaluations += 1
-        sh.nontrivial("%s/%s/%s" % (variant, args, env))
+        sh.nontrivial("%s/%s/%s/run%d" % (variant, args, env, ji))  # every process run is a different schedule
         if res is None:
             if rc == "timeout":
                 sh.notes.append("watchdog: %s did not finish (inconclusive, not a verdict)" % cmd)
